@@ -19,7 +19,7 @@
      2^ceil(d/2) rounds for d >= 6 (C07_shirokov_partial assumes the break), and "ZeroDivisionError
      only for singular operands" beyond d = 4.  Custom bases with non-ascending spellings follow from
      the d <= 4 statements by the C14 relabelling isomorphism (Theory/Relabel.v); not composed here. *)
-From Coq Require Import List ZArith Ring_theory.
+From Coq Require Import List ZArith QArith Ring_theory.
 From KV Require Import Model.All Model.Inverse Theory.WF Theory.Sparse Theory.Ops Theory.OpsWF
   Theory.Algebra Theory.Inverse Theory.Hitzer.
 Import ListNotations.
@@ -240,4 +240,20 @@ Example C07_ex_inverse_Z :
 Proof. vm_compute. reflexivity. Qed.
 Example C07_ex_zde :
   inv_model Zops Zdv Zisz idF (mk_default [1] 1 false) [(0, 1); (1, 1)] = Err EZeroDiv.
+Proof. vm_compute. reflexivity. Qed.
+(* the Shirokov loop on 1 + 2 e1 in a 6-dimensional algebra, over Q with the numeric zero filter: it stops by
+   its break in round 8 = 2^(6/2) on the scalar -81, and alg.inv returns -1/3 + 2/3 e1 *)
+Example C07_ex_shirokov :
+  let A := mk_default [1; 1; 1; 1; -1; 0] 1 false in
+  let x := [(1, (2 # 1)%Q); (0, (1 # 1)%Q)] in
+  match shirokov_run Qops Qdv Qisz (Composite.filter_nz Qisz) A x with
+  | Ok (i, xi, _, _) => i = 8%nat /\ grades_is_0 xi = true /\ xi = [(0, (-81 # 1)%Q)]
+  | Err _ => False
+  end
+  /\ inv_model Qops Qdv Qisz (Composite.filter_nz Qisz) A x = Ok [(0, (-1 # 3)%Q); (1, (2 # 3)%Q)].
+Proof. vm_compute. auto. Qed.
+(* AdditionChains(16).minimal_chains, in dictionary order *)
+Example C07_ex_chains :
+  minimal_chains 8 = Ok [(1, [1]); (2, [1; 2]); (3, [1; 2; 3]); (4, [1; 2; 4]); (5, [1; 2; 3; 5]);
+                         (6, [1; 2; 3; 6]); (8, [1; 2; 4; 8]); (7, [1; 2; 3; 5; 7])].
 Proof. vm_compute. reflexivity. Qed.
